@@ -249,7 +249,8 @@ class FnEffects:
                         self.accesses.append(Access(path, 'r', p['id']))
                         return
                     if name in MUTATORS or name.startswith('operator'):
-                        if name not in KILLERS:
+                        if name not in KILLERS and name not in ('resize', 'reserve'):
+                            # (resize discards the contents: it reads only the object's size)
                             self.accesses.append(Access(path, 'r', p['id']))
                         self.accesses.append(Access(path, 'w', p['id'], whole=(name in KILLERS and not partial)))
                         return
